@@ -13,15 +13,16 @@
        of devices and one system simulation of devices, in every state a run of the master reaches
        each RESOLVED wire -- a top-level wire, a wire into the system composed with the wire from
        its external port, a wire to an exposed port composed with the wire out of the system, an
-       inner wire ([C03_resolved_wiring]) -- carries the latest report of its source device.
+       inner wire, a wire into the system composed with a pass-through wire (external -> expose) and
+       the wire out of the system ([C03_resolved_wiring]) -- carries the latest report of its source device.
    (6) through the boundaries of a nesting of ANY depth, in both directions
        ([C03_through_any_nesting]): for every configuration that [inline_all] flattens step by step
        (system simulations beside and inside one another, decided by [scope_all]), in every state a
        run of the master reaches with the NESTED configuration each wire of the flat result -- every
        chain of wires through external and exposed ports resolved to the device output that drives
        it -- carries the latest report of its source device.
-   PARTIAL: (5) and (6) are about runs without interrupts and nestings without wires straight from an
-   external to an exposed port; those are decided per run by the Coq-defined oracle [latest_ok]
+   PARTIAL: (5) and (6) are about runs without interrupts (pass-through ports -- wires straight from an external
+   to an exposed port -- are covered by (6)); interrupts are decided per run by the Coq-defined oracle [latest_ok]
    (Oracle/SimOracle.v, code 81) on the flattened wiring of every generated nesting.
    Property theorems only. *)
 From TV Require Import Base Model.Wiring Model.Ticker Model.Component Model.Sim Model.SimTime Model.Inline
@@ -97,11 +98,13 @@ Proof. intros cfg devf num den fuel steps initial stim t_end Hwf Hdev. apply sim
 Theorem C03_resolved_wiring : forall cfg c lvc u p d q,
   In (u, p, d, q) (l_conns (level_of (inline cfg c lvc) top)) <->
   (In (u, p, d, q) (l_conns (level_of cfg top)) /\ u <> c /\ d <> c) \/
-  (exists q0, In (u, p, c, q0) (l_conns (level_of cfg top)) /\ In (ext_id, q0, d, q) (l_conns (level_of cfg lvc))) \/
-  (exists o, In (u, p, exp_id, o) (l_conns (level_of cfg lvc)) /\ In (c, o, d, q) (l_conns (level_of cfg top))) \/
-  (In (u, p, d, q) (l_conns (level_of cfg lvc)) /\ u <> ext_id /\ d <> exp_id).
+  (exists q0, In (u, p, c, q0) (l_conns (level_of cfg top)) /\ In (ext_id, q0, d, q) (l_conns (level_of cfg lvc)) /\ d <> exp_id) \/
+  (exists o, In (u, p, exp_id, o) (l_conns (level_of cfg lvc)) /\ In (c, o, d, q) (l_conns (level_of cfg top)) /\ u <> ext_id) \/
+  (In (u, p, d, q) (l_conns (level_of cfg lvc)) /\ u <> ext_id /\ d <> exp_id) \/
+  (exists q0 o, In (u, p, c, q0) (l_conns (level_of cfg top)) /\ In (ext_id, q0, exp_id, o) (l_conns (level_of cfg lvc)) /\
+                In (c, o, d, q) (l_conns (level_of cfg top))).
 Proof.
-  intros cfg c lvc u p d q. rewrite inline_top_conns, in_Cf, in_conns_A, in_conns_B, in_conns_C, in_conns_D. reflexivity.
+  intros cfg c lvc u p d q. rewrite inline_top_conns, in_Cf, in_conns_A, in_conns_B, in_conns_C, in_conns_D, in_conns_E. reflexivity.
 Qed.
 
 (* every state the master reaches when it runs the NESTED configuration has every resolved wire
